@@ -50,11 +50,27 @@ def t_ref(x, n_obs, na, nb, alpha):
     if var <= 1e-12 * max(scale_v, 1e-300):
         return out
     sd = math.sqrt(var)
+    # Eq. 18 is a difference of two sums of the size of the mean square: evaluated in double precision its relative error is about
+    # (3N+4) eps x (mean square / variance).  The comparison tolerances of t and of the interval half-width carry that conditioning term
+    # (false alarm 16: a sample with sd/mean ~ 1e-4 differed from the fsum reference by 2e-7 in t); beyond 1e-2 nothing is decided.
+    out["var_rel_err"] = (3 * N + 4) * 2.220446049250313e-16 * scale_v / var
+    out["half"] = float(scipy.special.stdtrit(N - 1, 1 - alpha / 2)) * sd / math.sqrt(N)
     out["t"] = ig / (sd / math.sqrt(N))
     out["tc"] = float(scipy.special.stdtrit(N - 1, 1 - alpha / 2))
     out["lo"] = ig - out["tc"] * sd / math.sqrt(N)
     out["hi"] = ig + out["tc"] * sd / math.sqrt(N)
     return out
+
+
+def t_bad(ctx, got, ref):
+    """Names of the T-test outputs that differ from the reference by more than the round-off of Eq. 18 explains."""
+    e = ref["var_rel_err"]
+    if e > 1e-2:
+        ctx.add("t_interval_not_decided_variance_ill_conditioned")
+        return [k for k in ("tc",) if not close(got[k], ref[k], rel=1e-7, abs_=1e-10)]
+    bad = [k for k in ("t", "tc") if not close(got[k], ref[k], rel=1e-7 + (e if k == "t" else 0.0), abs_=1e-10)]
+    bad += [k for k in ("lo", "hi") if not close(got[k], ref[k], rel=1e-7, abs_=1e-10 + e * ref["half"])]
+    return bad
 
 
 def w_ref(x, m):
@@ -140,7 +156,7 @@ def install(ctx):
                             tags=dict(tg, clause="gain"))
             elif "t" in ref:
                 got = {"t": float(result["t_statistic"]), "tc": float(result["t_critical"]), "lo": float(result["ig_lower"]), "hi": float(result["ig_upper"])}
-                bad = [k for k in got if not close(got[k], ref[k], rel=1e-7, abs_=1e-10)]
+                bad = t_bad(ctx, got, ref)
                 if bad:
                     ctx.violate("t statistic / critical value / confidence interval differ from Rhoades et al. Eq. 17-18", case, observed=got,
                                 expected={k: ref[k] for k in got}, tags=dict(tg, clause="t-" + "+".join(bad)))
@@ -318,7 +334,7 @@ def check_t(ctx, rc, tags, res, ref):
     if "t" not in ref:
         return
     got = {"t": float(res.quantile[0]), "tc": float(res.quantile[1]), "lo": float(res.test_distribution[0]), "hi": float(res.test_distribution[1])}
-    bad = [k for k in got if not close(got[k], ref[k], rel=1e-7, abs_=1e-10)]
+    bad = t_bad(ctx, got, ref)
     if bad:
         ctx.violate("t statistic / critical value / confidence interval differ from Rhoades et al. Eq. 17-18", rc, observed=got,
                     expected={k: ref[k] for k in got}, tags=dict(tags, clause="t-" + "+".join(bad)))
